@@ -5,6 +5,8 @@ import BklProofs.C04
 #print axioms Bkl.C04_int_out_of_range
 #print axioms Bkl.C04_normalize_total
 #print axioms Bkl.C04_float_path
+#print axioms Bkl.C04_float_unrepresentable_is_error
+#print axioms Bkl.C04_goDecInt_grammar
 #print axioms Bkl.C04_compare_canonical
 #print axioms Bkl.C04_map_order_irrelevant
 #print axioms Bkl.C04_map_sorted
